@@ -4,6 +4,7 @@ CONSTANTS
   MustBind = {"time","nonce","sender","recipient","value","data","fee","type"}
   HashInput = {"time","nonce","sender","recipient","value","data","fee","type"}
   KeyInObject = TRUE
+  DupShapes <- ShapesNone
   MaxSteps = 4
 
 INVARIANT GPrint
